@@ -119,6 +119,13 @@ def run(repo: Repo, chk: Check):
 
     chk.guarded(r07c, repo, chk)
     chk.guarded(r07c_tail_kept, repo, chk)
+    chk.rule("R07.g", "after the code of a function definition has been gathered, emission goes on where it was before (the target saved on entry is "
+                      "restored): the rest of an enclosing function, its end label and its terminator belong to that function's region, not to the main code", floor=1)
+    chk.guarded(r07g, repo, chk)
+    chk.rule("R07.h", "a function can be called only after its definition has been visited (the table of known functions grows in visiting order): the gather "
+                      "pass splices a once-called function into its call site and needs its code to exist then; a body gathered later stays behind the main code "
+                      "without a terminator", floor=1)
+    chk.guarded(r07h, repo, chk)
     chk.rule("R07.f", "an early return jumps to the end label of its own function: definition and reference of '<name>end' spell the module-qualified "
                       "name the same way, so the jump cannot land in (or fall through to) another function's region (shared with R05.d)", floor=6)
     from .shared import rule_function_labels
@@ -256,3 +263,70 @@ def r07c_tail_kept(repo: Repo, chk: Check, R="R07.c"):
                             f"the end (an early return, a loop that is left by break) the function runs into whatever is emitted next", {"statement": cut[:120]}, f"{m.path}:{st.lineno} in {q}")
     if n == 0:
         chk.ok(R, "generate_code/compile_pass:no pass removes instructions from the end of a compiled region", None)
+
+
+# ---------------------------------------------------------------------- R07.g
+def r07g(repo: Repo, chk: Check, R="R07.g"):
+    g = repo.mod("generate_code")
+    fn = g.func("CompilerPassGatherCode.handle_node")
+    chk.saw("generate_code", fn.qual)
+    cfg, rd = fn_ctx(fn)
+    where = f"{g.path}:{fn.lineno} in {fn.qual}"
+    stores = [st for st in ast.walk(fn) if isinstance(st, ast.Assign) and any(norm(t) == "self._target" for t in st.targets)]
+    gathers = [c for c in ast.walk(fn) if isinstance(c, ast.Call) and norm(c.func) == "self.gather_code"]
+    if not stores or not gathers:
+        raise AnalysisError("GatherCode.handle_node: the switch of the emission target / the call of gather_code was not found")
+    gline = max(c.lineno for c in gathers)
+    switches = [st for st in stores if st.lineno < gline]
+    restores = [st for st in stores if st.lineno > gline]
+    if not switches:
+        raise AnalysisError("GatherCode.handle_node: no switch of self._target before gather_code")
+    if not restores:
+        chk.bad(R, "generate_code:GatherCode.handle_node:the emission target is restored after a function definition",
+                "self._target is switched to the function's region and never switched back: everything after the definition is appended to that function", None, where)
+        return
+    for st in restores:
+        v = st.value
+        ids = live_ids(cfg, st)
+        saved = False
+        if isinstance(v, ast.Name):
+            ds = rd.at(ids[0], v.id) if ids else []
+            saved = bool(ds) and all(d.kind == "assign" and d.value is not None and norm(d.value) == "self._target" and cfg.nodes[d.node].ast.lineno < min(s_.lineno for s_ in switches) for d in ds)
+            if not saved and ds:
+                raise AnalysisError(f"GatherCode.handle_node: what {v.id} holds when it is restored was not understood")
+        elif isinstance(v, ast.Subscript) and isinstance(v.slice, ast.Constant):
+            saved = False     # a fixed region
+        else:
+            raise AnalysisError(f"GatherCode.handle_node: value restored into self._target not understood: {norm(v)[:60]}")
+        chk.judge(R, "generate_code:GatherCode.handle_node:the emission target is restored after a function definition", saved,
+                  f"after a function definition self._target becomes {norm(v)} instead of the target that was active before: for a function defined inside another function "
+                  f"the rest of the outer body, its end label and its 'j ra' go to the main code, and the outer function's region is left without a terminator", None,
+                  f"{g.path}:{st.lineno} in {fn.qual}")
+
+
+# ---------------------------------------------------------------------- R07.h
+def r07h(repo: Repo, chk: Check, R="R07.h"):
+    cp = repo.mod("compile_pass")
+    cls = cp.classes.get("CompilerPassCheckUsed")
+    if cls is None:
+        raise AnalysisError("anchor vanished: class CompilerPassCheckUsed")
+    fills = []
+    for q, fn in cp.funcs.items():
+        if not q.startswith("CompilerPassCheckUsed."):
+            continue
+        for st in ast.walk(fn):
+            tgt = None
+            if isinstance(st, ast.Assign) and any(isinstance(t, ast.Subscript) and norm(t.value) == "self._functions" for t in st.targets):
+                tgt = st
+            if isinstance(st, ast.Expr) and isinstance(st.value, ast.Call) and isinstance(st.value.func, ast.Attribute) and norm(st.value.func.value) == "self._functions" \
+                    and st.value.func.attr in ("setdefault", "update", "__setitem__"):
+                tgt = st
+            if tgt is not None:
+                fills.append((fn, tgt))
+    if not fills:
+        raise AnalysisError("CheckUsed: no statement that registers a function definition (self._functions[...] = ...) found")
+    for fn, st in fills:
+        in_handler = fn.name.startswith("handle_")
+        chk.judge(R, f"compile_pass:{fn.qual}:definitions are registered when they are visited", in_handler,
+                  f"'{norm(st)[:70]}' in {fn.name}() registers function definitions ahead of the visit: a call of a function that is defined further down is accepted, and when that "
+                  f"function is called once (inlined) the gather pass reaches the call before the function's code exists", None, f"{cp.path}:{st.lineno} in {fn.qual}")
